@@ -5,6 +5,7 @@ from ..model import AnalysisError, own_nodes, norm_src
 from ..peval import TokenV, Const, is_const
 from ..report import RuleResult
 from ..util import key_of, src, call_name, kwarg
+from ..pattern import find, has, match
 from ..registry import FUNCS_REL
 
 META = {
@@ -37,6 +38,18 @@ def rule_funnel(ctx):
     w = wu.nested.get('wrapper')
     if w is None:
         raise AnalysisError('wrap_ufunc.wrapper not found')
+    # the result variable: first argument of the returned call / returned name
+    resvar = None
+    for n in own_nodes(w):
+        if isinstance(n, ast.Return) and n.value is not None:
+            v = n.value
+            if isinstance(v, ast.Call) and v.args and isinstance(
+                    v.args[0], ast.Name):
+                resvar = v.args[0].id
+            elif isinstance(v, ast.Name):
+                resvar = v.id
+    if resvar is None:
+        raise AnalysisError('wrap_ufunc.wrapper: result variable not recognised')
     # names that carry the element evaluator (safe_eval or something built on it)
     carriers = {'safe_eval'}
     changed = True
@@ -49,7 +62,7 @@ def rule_funnel(ctx):
                 for t in n.targets:
                     for x in ast.walk(t):
                         if isinstance(x, ast.Name) and x.id not in carriers \
-                                and x.id != 'res':
+                                and x.id != resvar:
                             carriers.add(x.id)
                             changed = True
     BCAST = (('ext', 'numpy.vectorize'), ('ext', 'numpy.broadcast'),
@@ -58,7 +71,7 @@ def rule_funnel(ctx):
 
     def assigns_res(stmts):
         return any(isinstance(x, ast.Assign) and any(
-            isinstance(t, ast.Name) and t.id == 'res' for t in x.targets)
+            isinstance(t, ast.Name) and t.id == resvar for t in x.targets)
             for s in stmts for x in ast.walk(s))
 
     leaves = []
@@ -84,9 +97,9 @@ def rule_funnel(ctx):
     prod = []
     for stmts, cond in leaves:
         first = [x for s in stmts for x in ast.walk(s) if isinstance(
-            x, ast.Assign) and any(isinstance(t, ast.Name) and t.id == 'res'
+            x, ast.Assign) and any(isinstance(t, ast.Name) and t.id == resvar
                                    for t in x.targets)][0]
-        if any(isinstance(c, ast.Name) and c.id == 'res'
+        if any(isinstance(c, ast.Name) and c.id == resvar
                for c in ast.walk(first.value)):
             continue
         prod.append((stmts, cond, first))
@@ -144,7 +157,7 @@ def rule_funnel(ctx):
     views = [n for n in own_nodes(w) if isinstance(n, ast.Call) and
              call_name(n) == 'view' and n.args and norm_src(n.args[0]) == 'otype']
     rets = [n for n in own_nodes(w) if isinstance(n, ast.Return)]
-    if views and rets and all('res' in norm_src(r.value) for r in rets):
+    if views and rets and all(resvar in norm_src(r.value) for r in rets):
         rr.ok('the result is viewed as `otype` before being returned', FUNCS_REL)
     else:
         rr.fail(key_of(wu, 'result not viewed as otype'),
@@ -200,9 +213,8 @@ def rule_fill(ctx):
     p = ctx.project
     ir = p.func(FUNCS_REL, '_init_reshape')
     rr.instances += 1
-    t = ' '.join(norm_src(n) for n in own_nodes(ir) if isinstance(n, ast.Assign))
-    if "getattr(value, '_default', Error.errors['#N/A'])" in t and \
-            'res[:, :] =' in t:
+    if has("___r[:, :] = getattr(value, '_default', Error.errors['#N/A'])",
+           ir, stmt=True):
         rr.ok("_init_reshape fills with the value's own _default (fallback "
               '#N/A)', FUNCS_REL)
     else:
@@ -212,7 +224,7 @@ def rule_fill(ctx):
                 'reach get another value', file=FUNCS_REL,
                 function='_init_reshape', line=ir.lineno)
     rr.instances += 1
-    if 'get_shape(*value.shape)' in t:
+    if has('get_shape(*value.shape)', ir):
         rr.ok('_init_reshape derives the copy window from get_shape(*value.'
               'shape)', FUNCS_REL)
     else:
@@ -259,10 +271,10 @@ def rule_fill(ctx):
            (p.func(RANGES, '_reshape_array_as_excel'), 'value')]
     for f, val in sib:
         rr.instances += 1
-        t = ' '.join(norm_src(n) for n in own_nodes(f) if isinstance(n, ast.Assign))
-        init = any(isinstance(n, ast.Call) and call_name(n) == '_init_reshape'
-                   for n in own_nodes(f))
-        copy = 'res[:r, :c] = %s' % val in t
+        inits = find('__res, __r, __c = _init_reshape(___a, ___b)', f, stmt=True)
+        init = bool(inits)
+        copy = init and has('__res[:__r, :__c] = %s' % val, f, inits[0][1],
+                            stmt=True)
         if init and copy:
             rr.ok('%s starts from _init_reshape and copies the value into '
                   '[:r, :c]' % f.qualname, f.module.rel)
@@ -276,8 +288,8 @@ def rule_fill(ctx):
     # the cell output filter fits through set_value -> _reshape_array_as_excel
     sv = p.func(RANGES, 'Ranges.set_value')
     rr.instances += 1
-    t = ' '.join(norm_src(n) for n in own_nodes(sv) if isinstance(n, ast.Assign))
-    if '_reshape_array_as_excel(value, shape)' in t and '_shape(**rng)' in t:
+    shp = find('__shape = _shape(**rng)', sv, stmt=True)
+    if shp and has('_reshape_array_as_excel(value, __shape)', sv, shp[0][1]):
         rr.ok('Ranges.set_value fits the value to the shape of its range',
               RANGES)
     else:
